@@ -168,7 +168,7 @@ impl Property for C28 {
         vec!["unused solution binders are not an error; constraints may mention any placeholder of the query".into()]
     }
     fn cases_per_shard(&self, tier: Tier) -> u32 {
-        tier.pick(120, 2500)
+        tier.pick(600, 6000)
     }
     fn decode(&self, t: &mut Tape, _tier: Tier) -> Case {
         if t.chance(45) {
